@@ -72,6 +72,8 @@ pub struct RunCtx {
     /// stop executing after the first violation
     pub stop_on_violation: bool,
     pub io_seed: u64,
+    pub io_faults: bool,
+    pub io_corrupt: bool,
     /// an allocation failed earlier in this run (then every later failure also falsifies C14)
     pub oom_seen: bool,
     pub peak_inner: usize,
@@ -90,6 +92,8 @@ impl RunCtx {
             audits,
             stop_on_violation: true,
             io_seed: 0,
+            io_faults: false,
+            io_corrupt: false,
             oom_seen: false,
             peak_inner: 0,
             peak_terms: 0,
